@@ -354,7 +354,7 @@ Definition check_values_leaf (T : table) (c : ns) (key : str) (v : val) : bool :
   | Some r =>
       if is_load r then match v with VStr s => is_some (load_config T key s) | _ => true end
       else is_none v || is_some (check_leaf r false (get_key c key) v)
-  | None => is_branch_key T key
+  | None => is_branch_key T key && is_none v     (* a branch key must hold a mapping (or None): _core.py:1137-1139 *)
   end.
 
 Definition check_values (T : table) (c : ns) : bool :=
@@ -424,19 +424,23 @@ Definition argv_names_group (gk : str) (inp : input) : bool :=
 Definition env_names_group (gk : str) (inp : input) : bool :=
   is_some (lookup (env_name (gdest gk)) (i_env inp)).
 
-(* class 3: a config / object gives the group key itself a string or null *)
+(* classes 3 and 4: a config / object gives the group key itself something that is not a mapping *)
 Definition textish (v : val) : bool := match v with VStr _ | VNone => true | _ => false end.
-Definition dict_group_text (gk : str) (d : list (str * val)) : bool :=
-  existsb (fun kv => str_eqb (fst kv) (gdest gk) && textish (snd kv)) (norm_dict d).
-Definition text_group_text (gk : str) (text : str) : bool :=
-  match pv text with VDict d => dict_group_text gk d | _ => false end.
-Definition config_group_text (gk : str) (inp : input) : bool :=
-  match lookup env_cfg (i_env inp) with Some t => text_group_text gk t | None => false end
+Definition nonmap (v : val) : bool := match v with VDict _ => false | _ => true end.
+Definition dict_group_is (p : val -> bool) (gk : str) (d : list (str * val)) : bool :=
+  existsb (fun kv => str_eqb (fst kv) (gdest gk) && p (snd kv)) (norm_dict d).
+Definition text_group_is (p : val -> bool) (gk : str) (text : str) : bool :=
+  match pv text with VDict d => dict_group_is p gk d | _ => false end.
+Definition config_group_is (p : val -> bool) (gk : str) (inp : input) : bool :=
+  match lookup env_cfg (i_env inp) with Some t => text_group_is p gk t | None => false end
   || match i_entry inp with
-     | EArgs items => existsb (fun it => text_group_text gk (snd it)) items
-     | EObject d => dict_group_text gk d
-     | EString text => text_group_text gk text
+     | EArgs items => existsb (fun it => text_group_is p gk (snd it)) items
+     | EObject d => dict_group_is p gk d
+     | EString text => text_group_is p gk text
      end.
+(* class 3: ... a string or null;  class 4: ... any other non-mapping value (number, bool, list) *)
+Definition config_group_text := config_group_is textish.
+Definition config_group_nonmap := config_group_is nonmap.
 
 (* the declarations the statement is about: a plain group key (no dot, not starting with '-') and at least one
    option left by the signature rules *)
@@ -451,6 +455,7 @@ Definition finding_class (gk : str) (fs : list field) (inp : input) : N :=
   else if argv_names_group gk inp then 1
   else if env_names_group gk inp then 2
   else if config_group_text gk inp then 3
+  else if config_group_nonmap gk inp then 4
   else if negb (hyphen_safe gk (norm fs)) then 5
   else 0.
 
@@ -460,6 +465,7 @@ Definition finding_class_fixed (gk : str) (fs : list field) (inp : input) : N :=
   else if argv_names_group gk inp then 1
   else if env_names_group gk inp then 2
   else if config_group_text gk inp then 3
+  else if config_group_nonmap gk inp then 4
   else 0.
 
 End Parse.
